@@ -45,7 +45,16 @@ structure Index where
   modNames : List (Path × List String) := []
   version : Nat := 0
   availCache : List (Path × (Nat × List Def)) := []
-  cycleCache : Option (Nat × List Cycle) := none
+  /-- `cycle_cache`: the version it was computed at and every answer the (hash-ordered) DFS could
+      have produced then -/
+  cycleCache : Option (Nat × List (List Cycle)) := none
+  /-- GHOST (not in the implementation): counts successful analyses; lets the driver say whether a
+      version-keyed memo hit is stale (`definitions_version` is bumped only when a definition is
+      recorded, not when one is removed). -/
+  epoch : Nat := 0
+  /-- GHOST: epoch at which each memo entry was stored -/
+  availEpoch : List (Path × Nat) := []
+  cycleEpoch : Nat := 0
   /-- `imported_fixtures_cache`: (content — standing for its hash —, version, names). -/
   impCache : List (Path × (String × Nat × List String)) := []
   pluginFiles : List Path := []
@@ -110,6 +119,14 @@ def pushUndeclared (l : List (Path × List Undeclared)) (f : Path) (u : Undeclar
   | some us => l.map (fun p => if p.1 == f then (p.1, us ++ [u]) else p)
   | none => l ++ [(f, [u])]
 
+/-- one `Name` reference of a body scan: flagged iff not declared, not a local in scope, and
+    `is_available_fixture` says yes at this moment. -/
+def scanStep (f : Path) (b : BodyScan) (st : Index) (r : NameRef) : Index :=
+  if b.candidate r && st.isAvail f r.name then
+    let ud := Undeclared.mk r.name f r.line r.startChar r.endChar b.fnName b.fnLine
+    { st with undeclared := pushUndeclared st.undeclared f ud }
+  else st
+
 /-- replay one recorded event (`record_fixture_definition`, `record_fixture_usage`,
     `scan_function_body_for_undeclared_fixtures`). -/
 def applyEvent (pfx : Path) (f : Path) (st : Index) : Event → Index
@@ -120,12 +137,7 @@ def applyEvent (pfx : Path) (f : Path) (st : Index) : Event → Index
               version := st.version + 1 }
   | .usage u =>
     { st with usages := pushUsage st.usages f u, ubf := st.ubf ++ [u] }
-  | .scan b =>
-    b.refs.foldl (fun st r =>
-      if b.candidate r && st.isAvail f r.name then
-        let ud := Undeclared.mk r.name f r.line r.startChar r.endChar b.fnName b.fnLine
-        { st with undeclared := pushUndeclared st.undeclared f ud }
-      else st) st
+  | .scan b => b.refs.foldl (scanStep f b) st
   | .panic => st
 
 /-- `cleanup_definitions_for_file`. -/
@@ -136,20 +148,24 @@ def cleanupDefs (st : Index) (f : Path) : Index :=
     { st with fileDefs := aerase st.fileDefs f,
               defs := st.defs.filter (fun d => !(d.file == f && names.contains d.name)) }
 
+/-- the per-file clearing at the start of a successful analysis: text cached, the file's
+    usages / reverse-index entries / undeclared findings / module names dropped. -/
+def clearFile (st : Index) (f : Path) (v : Version) : Index :=
+  { st with cache := ainsert st.cache f v, ubf := st.ubf.filter (fun u => u.file != f), usages := aerase st.usages f, undeclared := aerase st.undeclared f, modNames := aerase st.modNames f }
+
+/-- the state right before the events of a valid version are replayed -/
+def preState (cl : Bool) (st : Index) (f : Path) (v : Version) (fr : FileRec) : Index :=
+  let st1 := clearFile st f v
+  let st2 := if cl then st1.cleanupDefs f else st1
+  { st2 with modNames := ainsert st2.modNames f fr.modNames, epoch := st2.epoch + 1 }
+
 /-- `analyze_file_internal(path, text, cleanup_previous)`; the Boolean result is "panicked". -/
 def analyze (pfx : Path) (cleanup : Bool) (st : Index) (f : Path) (v : Version) : Index × Bool :=
-  let st := { st with cache := ainsert st.cache f v }
   match v.parsed with
-  | none => (st, false)
+  | none => ({ st with cache := ainsert st.cache f v }, false)
   | some fr =>
-    let st := { st with ubf := st.ubf.filter (fun u => u.file != f),
-                        usages := aerase st.usages f,
-                        undeclared := aerase st.undeclared f,
-                        modNames := aerase st.modNames f }
-    let st := if cleanup then st.cleanupDefs f else st
-    let st := { st with modNames := ainsert st.modNames f fr.modNames }
-    let st := fr.events.foldl (applyEvent pfx f) st
-    (st, fr.events.any (fun e => match e with | .panic => true | _ => false))
+    (fr.events.foldl (applyEvent pfx f) (preState cleanup st f v fr),
+     fr.events.any (fun e => match e with | .panic => true | _ => false))
 
 /-- `cleanup_file_cache` (did_close). -/
 def closeFile (st : Index) (f : Path) : Index :=
@@ -328,7 +344,8 @@ def availableSt (st : Index) (f : Path) : List Def × Index :=
           (acc.1 ++ [(c, names)], st')
         else acc) ([], st)
     let res := available st1.defs (fun c n => ((alookup table c).getD []).contains n) f
-    (res, { st1 with availCache := ainsert st1.availCache f (st1.version, res) })
+    (res, { st1 with availCache := ainsert st1.availCache f (st1.version, res),
+                     availEpoch := ainsert st1.availEpoch f st1.epoch })
   match alookup st.availCache f with
   | some (ver, l) => if ver == st.version then (l, st) else compute
   | none => compute
